@@ -46,7 +46,7 @@ mut("refresh-batch-outlinks", T, "            source_node.refresh()\n           
 mut("refresh-batch-inlinks", T, "            target_node = pages[target_page]\n            target_node.refresh()\n            source_blocks = (pages[source_page].block for source_page in source_pages)\n            store.add_inlinks(target_node, source_blocks)\n\n            if state", "            target_node = pages[target_page]\n            source_blocks = (pages[source_page].block for source_page in source_pages)\n            store.add_inlinks(target_node, source_blocks)\n\n            if state", ["C16", "C03"])
 mut("bst-lookup-first-block-only", L, "                if stem < current_stem:\n                    if node.has_left():\n                        node.read_left()\n                    else:\n                        return\n", "                if stem[:74] < current_stem[:74]:\n                    if node.has_left():\n                        node.read_left()\n                    else:\n                        return\n", ["C02"])
 mut("crawled-not-turned-on-on-resubmission", L, "        elif crawled and not node.is_crawled():\n            node.flag_as_crawled()\n\n            node.write()\n", "", ["C01"])
-mut("report-counts-resubmissions", L, "            node.write()\n            history.page_was_created = True\n", "            node.write()\n\n        history.page_was_created = True\n", ["C01"])
+mut("report-counts-resubmissions", L, "        elif crawled and not node.is_crawled():\n            node.flag_as_crawled()\n\n            node.write()\n", "        elif crawled and not node.is_crawled():\n            node.flag_as_crawled()\n\n            node.write()\n            history.page_was_created = True\n", ["C01"])
 mut("follow-compares-first-block-only", L, "            while True:\n                current_stem = node.stem()\n\n                if current_stem == stem:\n                    break\n\n                if stem < current_stem:\n                    if node.has_left():\n                        node.read_left()\n                    else:\n                        return None, history\n", "            while True:\n                current_stem = node.stem()\n\n                if current_stem[:74] == stem[:74]:\n                    break\n\n                if stem < current_stem:\n                    if node.has_left():\n                        node.read_left()\n                    else:\n                        return None, history\n", ["C04", "C06", "C02"])
 mut("sibling-parent-is-sibling", L, "        sibling.set_parent(node.parent())\n", "        sibling.set_parent(node.block)\n", ["C02", "C03", "C08"])
 mut("link-previous-dropped-across-batches", K, "        if source_node.has_links(out=out):\n            tail_node = self.node(block=source_node.links(out=out))\n", "        if source_node.has_links(out=out) and out:\n            tail_node = self.node(block=source_node.links(out=out))\n", ["C03"])
